@@ -350,11 +350,14 @@ fn run_root_case(
         use std::os::fd::AsRawFd;
         match effect::rel_path_of_fd(&top, fd.as_raw_fd()) {
             Some(p) if p == b"root" || p.starts_with(b"root/") => s.push_str(&format!("loc inside {}\n", fmt::hex(&p))),
+            // (the directory that contains the root: the empty relative path)
+            Some(p) if p.is_empty() => s.push_str(&format!("loc outside {}\n", fmt::hex(b"<the directory that contains the root>"))),
             Some(p) => s.push_str(&format!("loc outside {}\n", fmt::hex(&p))),
-            None => {
-                let p = fs::read_link(format!("/proc/self/fd/{}", fd.as_raw_fd())).map(|p| p.as_os_str().as_bytes().to_vec()).unwrap_or_default();
-                s.push_str(&format!("loc outside {}\n", fmt::hex(&p)))
-            }
+            None => match fs::read_link(format!("/proc/self/fd/{}", fd.as_raw_fd())) {
+                Ok(p) => s.push_str(&format!("loc outside {}\n", fmt::hex(p.as_os_str().as_bytes()))),
+                // no /proc in this environment: where the descriptor points cannot be read
+                Err(_) => s.push_str("loc unknown\n"),
+            },
         }
     }
     for d in tree::snapshot_diff(&before_snap, &after_snap) {
